@@ -120,26 +120,27 @@ def reference(s, d, supplemental):
     return ('error',)
 
 
-def run_parser(B, s, d, supplemental):
+def run_parser(B, s, d, supplemental, explicit=False):
     buf = Buf(s, B.kind)
     with warnings.catch_warnings(record=True) as w:
         warnings.simplefilter('always')
         r = catch(B.FC.io.read_fcs_text_segment, buf, 0, len(s) - 1,
-                  delim=(d if supplemental else None), supplemental=supplemental)
+                  delim=(d if (supplemental or explicit) else None), supplemental=supplemental)
         warned = len(w) > 0
     return r, warned
 
 
 def body_diff(B, I):
     s, supplemental = I['seg'], I['supplemental']
-    if supplemental:
+    explicit = I.get('explicit', False)
+    if supplemental or explicit:
         d = '/ab'[ch.pick(I['di'], 0, 3)]
     else:
         if len(s) == 0:
             d = '/'
         else:
             d = s[0]
-    r, warned = run_parser(B, s, d, supplemental)
+    r, warned = run_parser(B, s, d, supplemental, explicit)
     ref = reference(s, d, supplemental)
     if r[0] == 'exc':
         if r[1] != 'ValueError':
@@ -163,15 +164,15 @@ def body_diff(B, I):
     return True
 
 
-def make_diff(L, supplemental):
+def make_diff(L, supplemental, explicit=False):
     def make(env):
         params = [('seg', 'str')]
         pre = ['len(seg) <= %d and all(c_ in "/ab" for c_ in seg)' % L]
-        if supplemental:
+        if supplemental or explicit:
             params.append(('di', 'int'))
             pre.append('0 <= di <= 2')
         return cond_fn('text_diff', params, body_diff, pre=pre,
-                       consts={'supplemental': supplemental})
+                       consts={'supplemental': supplemental, 'explicit': explicit})
     return make
 
 
@@ -246,6 +247,10 @@ def conditions(tier):
         Cond('diff_supplemental', make=make_diff(L - 1, True), replay=std_replay(body_diff),
              timeout=300 if q else 2400, modules=('plot', 'io'),
              doc='supplemental segment, delimiter symbolic, optional leading delimiter'),
+        Cond('diff_primary_explicit_delim', make=make_diff(L - 2, False, True),
+             replay=std_replay(body_diff), timeout=300 if q else 2400, modules=('plot', 'io'),
+             doc='primary segment with the delimiter passed explicitly: a segment that does not '
+                 'start with it is refused'),
         Cond('round_primary', make=make_round(mr, False, True), replay=std_replay(body_round),
              timeout=300 if q else 1800, modules=('plot', 'io'),
              doc='encode/decode of tokens with interior and trailing delimiter runs'),
